@@ -36,7 +36,7 @@ CASES_Q = [
     ('quso', 'QUSOMatrix', [(0, 1)], 2, 'T0', 'mixed', 1, None),                            # initial state + 2 anneals
     ('quso', 'QUSOMatrix', [(0, 1)], 2, 'T1', None, 1, None),
     ('quso', 'QUSOMatrix', [(0,), (0, 3)], 2, 'T10', 'up', 1, None),                        # gaps 1,2
-    ('quso', 'QUSOMatrix', [(3,)], 1, 'T1', None, 0, None),                                 # only the last index used, no couplings
+    ('quso', 'QUSOMatrix', [(3,)], 1, 'T1', 'up', 0, None),                                 # only the last index used, no couplings
     ('quso', 'QUSO', [('a',), ('b',)], 1, 'T1', None, 1, None),                             # no couplings
     ('quso', 'QUSO', [('a', 'b'), ('b', 'c'), ('a', 'c')], 1, 'T0', 'mixed', 0, None),
     ('quso', 'QUSO', [('a', 'b')], 1, 'empty', None, 1, None),
@@ -47,9 +47,10 @@ CASES_Q = [
     ('quso', 'QUSOMatrix', [()], 2, 'T1', None, 1, None),
     ('puso', 'PUSOMatrix', [(0,)], 1, 'T0', 'up', 1, None),
     ('puso', 'PUSOMatrix', [(0, 1, 2)], 2, 'T0', 'mixed', 1, None),
-    ('puso', 'PUSOMatrix', [(0, 1, 3), (1, 3, 5)], 1, 'T1', None, 1, None),                 # gaps: isolated variables 2 and 4
+    ('puso', 'PUSOMatrix', [(0, 1, 3), (1, 3, 5)], 1, 'T1', 'mixed', 1, None),
+    ('puso', 'PUSOMatrix', [(0, 2)], 1, 'T1', None, 1, None),                 # gaps: isolated variables 2 and 4
     ('puso', 'PUSOMatrix', [(0, 1, 3), (1, 3, 5)], 2, 'T0', 'up', 1, None),
-    ('puso', 'PUSOMatrix', [(0, 2), (2,)], 2, 'T0', 'up', 0, None),
+    ('puso', 'PUSOMatrix', [(0, 2), (2,)], 1, 'T0', 'up', 0, None),
     ('puso', 'PUSO', [('a', 'b', 'c', 'd'), ('a',)], 1, 'T10', None, 1, None),              # high degree
     ('puso', 'PUSO', [('a', 'b', 'c')], 1, 'T1', None, 1, 'cancelled-variable'),            # a variable in no term
     ('puso', 'PUSO', [('a',)], 1, 'T1', None, 1, 'all-cancelled'),                          # variables but no non-constant term
